@@ -72,6 +72,26 @@ fn run(op: &Op) -> (u64, usize) {
             let (vl, vb) = nested::get_or_create(*d).vertex(*h, cdshealpix::compass_point::Cardinal::N);
             dg.f64(vl);
             dg.f64(vb);
+            {
+                use cdshealpix::compass_point::{Cardinal, CardinalSet};
+                let l = nested::get_or_create(*d);
+                let mut set = CardinalSet::new();
+                set.set(Cardinal::E, true);
+                set.set(Cardinal::W, true);
+                let vm = l.vertices_map(*h, set);
+                for c in [Cardinal::S, Cardinal::E, Cardinal::N, Cardinal::W] {
+                    match vm.get(c) {
+                        Some((a, b)) => { dg.f64(*a); dg.f64(*b); }
+                        None => dg.u64(u64::MAX),
+                    }
+                }
+                let (px, py) = l.center_of_projected_cell(*h);
+                dg.f64(px);
+                dg.f64(py);
+                dg.u64(l.hash_v1(lon, lat));
+                dg.u64(l.hash_v2(lon, lat));
+                dg.u64(l.to_uniq(*h));
+            }
             dg.u64(nested::n_hash(*d));
         }
         Op::N { d, h } => {
@@ -93,7 +113,16 @@ fn run(op: &Op) -> (u64, usize) {
                 dg.u64(v);
             }
         }
-        Op::K { d, lon, lat, r } => bmoc_digest(&mut dg, &nested::cone_coverage_approx(*d, *lon, *lat, *r)),
+        Op::K { d, lon, lat, r } => {
+            let b = nested::cone_coverage_approx(*d, *lon, *lat, *r);
+            bmoc_digest(&mut dg, &b);
+            if b.entries.len() <= 48 {
+                // the flat entry point, for small results only (it redoes the whole query)
+                for v in nested::cone_coverage_approx_flat(*d, *lon, *lat, *r).iter() {
+                    dg.u64(*v);
+                }
+            }
+        }
         Op::Kc { d, dd, lon, lat, r } => bmoc_digest(&mut dg, &nested::cone_coverage_approx_custom(*d, *dd, *lon, *lat, *r)),
         Op::E { d, lon, lat, a, b, pa } => bmoc_digest(&mut dg, &nested::elliptical_cone_coverage(*d, *lon, *lat, *a, *b, *pa)),
         Op::Ec { d, dd, lon, lat, a, b, pa } => bmoc_digest(&mut dg, &nested::elliptical_cone_coverage_custom(*d, *dd, *lon, *lat, *a, *b, *pa)),
